@@ -61,14 +61,17 @@ def run(chk):
     chk.trusted += ['the map / array laws are proved over integer keys (Python == / hash on ints is Z equality) and, for put / get / '
                     'contains / remove / size, over typed keys with the op:same-key relation (C15.Keys: keys of every atomic family '
                     'as (family, value code) with the codes assigned by the harness table KEYS; Python == on numbers, dates and '
-                    'durations is modelled external as py_eq); map:merge and the constructor on typed keys are covered by the '
-                    'same-key observation table only',
+                    'durations is modelled external as py_eq); map:merge on typed keys is modelled by tmerge (entry order of the dict is not '
+                    'compared there), the map constructor by the same-key observation table',
                     'map entry order (dict insertion order) is compared literally with the model; the specification leaves it free']
     for f in ('elementpath/xpath_tokens/maps.py', 'elementpath/xpath_tokens/arrays.py', 'elementpath/xpath31/_xpath31_functions.py',
               'elementpath/xpath31/_xpath31_operators.py', 'elementpath/compare.py'):
         chk.record_source(f)
     chk.forbidden_scan(['C15'])
-    proved = chk.prove(['theories/C15/Model.v', 'theories/C15/Proofs.v', 'theories/C15/Keys.v', 'theories/C15/KeysProofs.v',
+    import gen_c15
+    gen_c15.generate()          # source-shape facts regenerated from /repo on every run
+    chk.trusted.append('harness/shape.py: AST lookup of the statements mirrored by the hand model (Gen/C15Shape.v)')
+    proved = chk.prove(['theories/Gen/C15Shape.v', 'theories/C15/Model.v', 'theories/C15/Proofs.v', 'theories/C15/Keys.v', 'theories/C15/KeysProofs.v',
                         'theories/C15/Run.v'], 'theories/C15/Properties.v')
     model_ok = True
     if not proved:
@@ -400,6 +403,68 @@ def run(chk):
             else:
                 chk.violation('impl-vs-spec', desc, {'impl': got, 'spec': ms, 'model': mi})
         chk.nontrivial.add(repr(('tops', expr, tuple(k[0] for k in probes))))
+    # (c) map:merge and the map constructor over typed keys
+    spec_same = {(a[0], b[0]): bool(mo[1]) for (a, b), mo in zip(pairs, rel)}
+    mcases = []
+    for _ in range(120 if quick else 5000):
+        pool = rng.sample(KEYS, rng.randint(2, 5))
+        if rng.random() < 0.6:
+            pool += [k for k in KEYS if k[1].split()[0] == pool[0][1].split()[0]][:4]
+        maps = []
+        for _ in range(rng.randint(1, 3)):
+            # the entries of one operand map have pairwise different keys (a map cannot hold two same keys)
+            ent = []
+            for k in rng.sample(pool, min(len(pool), rng.randint(0, 3))):
+                if any(spec_same.get((k[0], k2[0]), True) for k2, _ in ent):
+                    continue
+                ent.append((k, [rng.randint(1, 9) for _ in range(rng.randint(1, 2))]))
+            maps.append(ent)
+        mcases.append((rng.randint(0, 3), maps, pool[:6]))
+    def tmap_lit(ent):
+        return '[' + '; '.join(f'(({k[1]}), {vlit(v)})' for k, v in ent) + ']'
+    mmodel = core.run_coq_cases('C15', IMPORTS, [f"run_tmerge {p} [{'; '.join(tmap_lit(e) for e in maps)}] [{'; '.join(k[1] for k in probes)}]"
+                                                 for p, maps, probes in mcases], chunk=300, tag='tmerge') if model_ok else []
+    for (p, maps, probes), mo in zip(mcases, mmodel):
+        chk.evaluations += 1
+        chk.count('typed:merge')
+        used = [k[0] for ent in maps for k, _ in ent] + [k[0] for k in probes]
+        desc = {'policy': POL[p], 'maps': [[(k[0], v) for k, v in ent] for ent in maps], 'probes': [k[0] for k in probes]}
+        try:
+            objs = []
+            operand_ok = True
+            for ent in maps:
+                e = 'map{}'
+                for k, v in ent:
+                    e = f"map:put({e}, {k[0]}, ({', '.join(map(str, v))}))"
+                m1 = select(None, e)
+                if len(m1) != len(ent):
+                    operand_ok = False      # the operand itself conflates two keys (bool / number region)
+                objs.append(m1)
+            m = select(None, "map:merge($ms, map{'duplicates': $p})", variables={'ms': objs, 'p': POL[p]})
+            got = []
+            for k in probes:
+                c = select(None, 'map:contains($m, $k)', variables={'m': m, 'k': kval[k[0]]})
+                g = select(None, 'map:get($m, $k)', variables={'m': m, 'k': kval[k[0]]})
+                g = g if isinstance(g, list) else [g]
+                got.append([int(bool(c))] + [int(x) for x in _flatten(g)])
+            got.append([len(m)])
+        except ElementPathError as e:
+            got = [[-9]] if 'FOJS0003' in str(e.code) else [['error', str(e.code)]]
+        except Exception as e:
+            chk.violation('impl-raised', desc, repr(e)[:300])
+            continue
+        mi, ms = [list(x) for x in mo[0]], [list(x) for x in mo[1]]
+        if not operand_ok and in_bool_region(used):
+            chk.known('C15-key-boolean-integer', desc | {'note': 'an operand map conflates a boolean and a numeric key'})
+            continue
+        if got != mi:
+            chk.corr_fail.append((desc, got, mi))
+        if got != ms:
+            if got == mi and in_bool_region(used):
+                chk.known('C15-key-boolean-integer', desc | {'impl': got, 'spec': ms})
+            else:
+                chk.violation('impl-vs-spec', desc, {'impl': got, 'spec': ms, 'model': mi})
+        chk.nontrivial.add(repr(('tmerge', p, repr(desc['maps']), tuple(desc['probes']))))
     chk.rule = ('seeded operation sequences map:put / map:remove on integer-keyed maps with every key probed through map:get, $m($k), $m?($k), '
                 'map:contains, map:size; map:merge over 1-4 maps x 4 duplicate policies; array functions over an index grid -1..6 and random '
                 'arrays; operands bound to variables and snapshotted before/after every call; same-key table over key types; '
